@@ -16,6 +16,7 @@
 -/
 import Proofs.Lemmas.AoefOpSaveTop
 import Proofs.C01
+import Proofs.C02
 namespace SE.Proofs.C02
 open SE SE.Aoef SE.Paths SE.Proofs.C01
 
@@ -55,60 +56,6 @@ example : WF exEval ∧ ∀ r ∈ recsOf exEval.trav, PathOK (some exDir) r :=
 
 /-! ### failure -/
 
-/-- the traversal is the least list that contains the collection's members and is closed under
-    direct references -/
-theorem trav_sub (c : Collection) (os : List Obj) (hc : ClosedL os) (hroot : ∀ r ∈ c.roots, r ∈ os) :
-    ∀ o ∈ c.trav, o ∈ os := by
-  cases c with
-  | recordingSet x =>
-    exact sub_flatMap fun r hr => recAll_full hc (hroot _ (List.mem_map.2 ⟨r, hr, rfl⟩))
-  | dataset x =>
-    exact sub_flatMap fun r hr => recAll_full hc (hroot _ (List.mem_map.2 ⟨r, hr, rfl⟩))
-  | annotationSet x =>
-    exact sub_flatMap fun a ha => caAll_full hc (hroot _ (List.mem_map.2 ⟨a, ha, rfl⟩))
-  | annotationProject x =>
-    simp only [Collection.roots, List.mem_append, List.mem_map] at hroot
-    refine sub_append (sub_append ?_ ?_) ?_
-    · exact sub_flatMap fun t ht => taskAll_full hc (hroot _ (Or.inl (Or.inl ⟨t, ht, rfl⟩)))
-    · exact fun o ho => hroot o (Or.inl (Or.inr ho))
-    · exact sub_flatMap fun a ha => caAll_full hc (hroot _ (Or.inr ⟨a, ha, rfl⟩))
-  | evaluationSet x =>
-    simp only [Collection.roots, List.mem_append, List.mem_map] at hroot
-    refine sub_append ?_ ?_
-    · exact sub_flatMap fun a ha => caAll_full hc (hroot _ (Or.inl ⟨a, ha, rfl⟩))
-    · exact fun o ho => hroot o (Or.inr ho)
-  | predictionSet x =>
-    exact sub_flatMap fun a ha => cpAll_full hc (hroot _ (List.mem_map.2 ⟨a, ha, rfl⟩))
-  | modelRun x =>
-    exact sub_flatMap fun a ha => cpAll_full hc (hroot _ (List.mem_map.2 ⟨a, ha, rfl⟩))
-  | evaluation x =>
-    exact sub_flatMap fun a ha => ceAll_full hc (hroot _ (List.mem_map.2 ⟨a, ha, rfl⟩))
-
-/-- everything in the traversal is reachable (the converse of `reachable_mem_trav`) -/
-theorem trav_reachable (c : Collection) (o : Obj) (h : o ∈ c.trav) : Reachable c o := by
-  classical
-  have hmem : ∀ o, o ∈ c.trav.filter (fun o => decide (Reachable c o)) ↔ o ∈ c.trav ∧ Reachable c o := by
-    intro o; simp
-  have hc : ClosedL (c.trav.filter (fun o => decide (Reachable c o))) := by
-    intro o ho ch hch
-    rcases (hmem o).1 ho with ⟨hot, r, hr, hro⟩
-    exact (hmem ch).2 ⟨trav_closed c o hot ch hch, r, hr, .step hro hch⟩
-  have hroot : ∀ r ∈ c.roots, r ∈ c.trav.filter (fun o => decide (Reachable c o)) :=
-    fun r hr => (hmem r).2 ⟨roots_subset_trav c r hr, r, hr, .refl r⟩
-  exact ((hmem o).1 (trav_sub c _ hc hroot o h)).2
-
-theorem C02_trav_iff_reachable (c : Collection) (o : Obj) : o ∈ c.trav ↔ Reachable c o :=
-  ⟨trav_reachable c o, reachable_mem_trav c o⟩
-
-theorem pathOK_some_iff {A : PPath} {r : Recording} : PathOK (some A) r ↔ inside r.path A := by
-  refine ⟨fun h => ?_, pathOK_inside⟩
-  rcases pathOK_iff.1 h with ⟨q, hq⟩
-  simp only [storedPath, relativeTo] at hq
-  split at hq
-  · rename_i hcond
-    exact ⟨hcond.1, List.isPrefixOf_iff_prefix.1 hcond.2⟩
-  · cases hq
-
 /-- **Failure.**  With an audio directory `A` the operational save raises (and then it is the
     `ValueError` of `relative_to`) exactly when some reachable recording lies outside `A`. -/
 theorem C02_opSave_fails_iff (c : Collection) (A : PPath) (hwf : WF c) :
@@ -124,7 +71,7 @@ theorem C02_opSave_fails_iff (c : Collection) (A : PPath) (hwf : WF c) :
       apply pathOK_some_iff.2
       apply Classical.byContradiction
       intro hni
-      exact hn ⟨r, trav_reachable c _ hr, hni⟩
+      exact hn ⟨r, mem_trav_reachable c _ hr, hni⟩
     rw [sv.1 hok] at he
     cases he
   · rintro ⟨r, hr, hni⟩
@@ -141,7 +88,7 @@ example : (∃ d, opSave exProject (some exDir) = .ok d) ∧ opSave exProject (s
 theorem C02_opSave_error (c : Collection) (dir : Option PPath) (hwf : WF c) (e : Err)
     (h : opSave c dir = .error e) : e = .invalid := by
   rw [C02_opSave_refines c dir hwf] at h
-  exact save_error h
+  exact save_err_invalid h
 example : WF exProject ∧ opSave exProject (some exDir2) = .error .invalid :=
   ⟨wf_exProject, by decide +kernel⟩
 
@@ -166,6 +113,42 @@ theorem C02_opSave_roundtrip_none (c : Collection) (d : Doc) (hwf : WF c)
   C01_roundtrip c d hwf ((C02_opSave_refines c none hwf) ▸ hs)
 example : ∃ d, WF exProject ∧ opSave exProject none = .ok d :=
   ⟨_, wf_exProject, (C02_opSave_refines _ _ wf_exProject).trans (save_total _)⟩
+
+/-- every identifier mentioned in the document the operational save wrote is defined in it -/
+theorem C02_opSave_closed (c : Collection) (dir : Option PPath) (d : Doc) (hwf : WF c)
+    (hs : opSave c dir = .ok d) : closed d = true :=
+  C02_closed c dir d hwf ((C02_opSave_refines c dir hwf) ▸ hs)
+example : ∃ d, WF exProject ∧ opSave exProject none = .ok d :=
+  ⟨_, wf_exProject, (C02_opSave_refines _ _ wf_exProject).trans (save_total _)⟩
+
+/-- identifiers are unique within each list -/
+theorem C02_opSave_unique (c : Collection) (dir : Option PPath) (d : Doc) (hwf : WF c)
+    (hs : opSave c dir = .ok d) : unique d = true :=
+  C02_unique c dir d hwf ((C02_opSave_refines c dir hwf) ▸ hs)
+example : ∃ d, WF exProject ∧ opSave exProject none = .ok d :=
+  ⟨_, wf_exProject, (C02_opSave_refines _ _ wf_exProject).trans (save_total _)⟩
+
+/-- every sequence's parent is listed before the sequence -/
+theorem C02_opSave_parent_first (c : Collection) (dir : Option PPath) (d : Doc) (hwf : WF c)
+    (hs : opSave c dir = .ok d) : parentFirst d = true :=
+  C02_parent_first c dir d ((C02_opSave_refines c dir hwf) ▸ hs)
+example : ∃ d, WF exProject ∧ opSave exProject none = .ok d :=
+  ⟨_, wf_exProject, (C02_opSave_refines _ _ wf_exProject).trans (save_total _)⟩
+
+/-- the document defines exactly the reachable objects -/
+theorem C02_opSave_exact (c : Collection) (dir : Option PPath) (d : Doc) (hwf : WF c)
+    (hs : opSave c dir = .ok d) :
+    ∀ k, ∀ key, key ∈ (if k = .tag then tagDefKeys d else defs d k) ↔ key ∈ reachKeys c.trav k :=
+  C02_exact c dir d ((C02_opSave_refines c dir hwf) ▸ hs)
+example : ∃ d, WF exEval ∧ opSave exEval none = .ok d :=
+  ⟨_, wf_exEval, (C02_opSave_refines _ _ wf_exEval).trans (save_total _)⟩
+
+/-- the tag ids the operational tag adapter hands out are `0 … n-1` -/
+theorem C02_opSave_tag_ids_dense (c : Collection) (dir : Option PPath) (d : Doc) (hwf : WF c)
+    (hs : opSave c dir = .ok d) : (lst d.tags).map (·.id) = List.range (lst d.tags).length :=
+  C02_tag_ids_dense c dir d ((C02_opSave_refines c dir hwf) ▸ hs)
+example : ∃ d, WF exEval ∧ opSave exEval none = .ok d :=
+  ⟨_, wf_exEval, (C02_opSave_refines _ _ wf_exEval).trans (save_total _)⟩
 
 /-! ### the operational model is order-sensitive where the code is
 
